@@ -8,7 +8,7 @@
      atfork_child_handler (inherited frames marked WRITTEN).
 
    It models the code AS IT IS.  Not modelled here (separate models): argument capture (C09),
-   events (C17), the `finish` and `recover` triggers, estimate-return, source-location filters.
+   events (C17), the `finish` and `recover` triggers, estimate-return.
    Shared by C02, C05, C17.                                                                    *)
 From Coq Require Import NArith ZArith List Bool.
 Import ListNotations.
@@ -23,11 +23,12 @@ Record trig := {
   t_size : option N;               (* TRIGGER_FL_SIZE_FILTER *)
   t_trace_on : bool; t_trace_off : bool;
   t_trace : bool;                  (* TRIGGER_FL_TRACE *)
-  t_caller : bool                  (* TRIGGER_FL_CALLER *)
+  t_caller : bool;                 (* TRIGGER_FL_CALLER *)
+  t_loc : option bool              (* TRIGGER_FL_LOC (-L): Some true = lmode IN, Some false = lmode OUT (@hide) *)
 }.
 Definition notrig : trig :=
   {| t_filter := None; t_depth := None; t_time := None; t_size := None;
-     t_trace_on := false; t_trace_off := false; t_trace := false; t_caller := false |}.
+     t_trace_on := false; t_trace_off := false; t_trace := false; t_caller := false; t_loc := None |}.
 
 Inductive shape := PG | CYG.
 
@@ -39,7 +40,8 @@ Record cfg := {
   threshold : N;                   (* mcount_threshold (-t) *)
   max_stack : N;                   (* mcount_rstack_max *)
   sym_size : N -> N;               (* mcount_getsize *)
-  shp : shape
+  shp : shape;
+  lmode_in : bool                  (* mcount_triggers->loc_count > 0: some -L names a location to show *)
 }.
 
 Definition NO_TIME : N := 18446744073709551615.   (* FILTER_NO_TIME *)
@@ -151,6 +153,8 @@ Definition with_fc (s : st) (f : fctl) (en : bool) : st :=
 (* mcount_entry_filter_check.  Returns the new state, the verdict, the trigger as seen (notrig when
    the function returned before the lookup) and the values saved by mcount_save_filter. *)
 Definition saved4 := (N * N * N * N)%type.
+Definition loc_out (c : cfg) (tr : trig) : bool :=
+  match t_loc tr with Some b => negb b | None => lmode_in c end.
 Definition entry_check (c : cfg) (s0 : st) (a : N) : st * verdict * trig * saved4 :=
   let f0 := fc s0 in
   let sv0 : saved4 := (depth f0, max_depth f0, ftime f0, fsize f0) in
@@ -170,7 +174,9 @@ Definition entry_check (c : cfg) (s0 : st) (a : N) : st * verdict * trig * saved
             end in
   if (match t_filter tr with None => fmode_in c && (in_count f =? 0)%Z | _ => false end)
   then (with_fc s f1 (enabled s), V_OUT, tr, sv) else
-  (* no location filters in this model: loc_count = 0 and no LOC triggers *)
+  (* location filter (-L): a function at a hidden location, or outside every shown one, is rejected here -
+     after the filter counts were changed, before the other trigger actions are looked at *)
+  if loc_out c tr then (with_fc s f1 (enabled s), V_OUT, tr, sv) else
   let f2 := match t_depth tr with
             | Some d => {| in_count := in_count f1; out_count := out_count f1; depth := 0; max_depth := d;
                            ftime := ftime f1; fsize := fsize f1 |}
@@ -425,7 +431,11 @@ Fixpoint assoc {A} (d : A) (l : list (N * A)) (k : N) : A :=
   match l with [] => d | (k', v) :: r => if k =? k' then v else assoc d r k end.
 Definition mkcfg (tr : list (N * trig)) (fm cl : bool) (gd thr ms : N) (sizes : list (N * N)) (sh : shape) : cfg :=
   {| trig_of := assoc notrig tr; fmode_in := fm; has_caller := cl; gdepth := gd; threshold := thr;
-     max_stack := ms; sym_size := assoc 0 sizes; shp := sh |}.
+     max_stack := ms; sym_size := assoc 0 sizes; shp := sh; lmode_in := false |}.
+(* the same with location filters: [lm] = some -L option names a location to show *)
+Definition mkcfgL (tr : list (N * trig)) (fm cl lm : bool) (gd thr ms : N) (sizes : list (N * N)) (sh : shape) : cfg :=
+  {| trig_of := assoc notrig tr; fmode_in := fm; has_caller := cl; gdepth := gd; threshold := thr;
+     max_stack := ms; sym_size := assoc 0 sizes; shp := sh; lmode_in := lm |}.
 
 (* one correspondence case: model run vs. observed states and records *)
 Definition agree_case (c : cfg) (es : list ev) (ostates : list obs) (orecs : list seen5) : bool :=
